@@ -26,6 +26,17 @@ MUTANTS = {
     "c03_earn_set": ("rp2.entry_types", "    TransactionType.HARDFORK,\n    TransactionType.INCOME,", "    TransactionType.INCOME,", ["C03"]),
     "c03_out_type": ("rp2.out_transaction", "            TransactionType.LOST,\n", "            TransactionType.LOST,\n            TransactionType.MOVE,\n", ["C03"]),
     "c03_skip_intra": ("rp2.tax_engine", "        input_data.unfiltered_intra_transaction_set,\n    ]:", "    ]:", ["C03"]),
+    "c06_to_date_excl": ("rp2.computed_data", "            if gain_loss.taxable_event.timestamp.date() > to_date:\n                break\n            key = _YearlyGainLossId(", "            if gain_loss.taxable_event.timestamp.date() >= to_date:\n                break\n            key = _YearlyGainLossId(", ["C06"]),
+    "c06_year_of_lot": ("rp2.computed_data", "                gain_loss.taxable_event.timestamp.year,\n                gain_loss.asset,", "                (gain_loss.acquired_lot or gain_loss.taxable_event).timestamp.year,\n                gain_loss.asset,", ["C06"]),
+    "c06_no_long_key": ("rp2.computed_data", "                gain_loss.is_long_term_capital_gains(),\n            )\n            value = summaries", "                False,\n            )\n            value = summaries", ["C06"]),
+    "c06_from_year_gt": ("rp2.computed_data", "if y.year >= from_year]", "if y.year > from_year]", ["C06", "C10"]),
+    "c07_sent_no_fee": ("rp2.balance", "sent_balances.get(from_account, ZERO) + out_transaction.crypto_out_no_fee + out_transaction.crypto_fee", "sent_balances.get(from_account, ZERO) + out_transaction.crypto_out_no_fee", ["C07"]),
+    "c07_recv_sent": ("rp2.balance", "final_balances.get(to_account, ZERO) + intra_transaction.crypto_received", "final_balances.get(to_account, ZERO) + intra_transaction.crypto_sent", ["C07"]),
+    "c07_to_date_ge": ("rp2.balance", "            if transaction.timestamp.date() > to_date:\n                break", "            if transaction.timestamp.date() >= to_date:\n                break", ["C07"]),
+    "c08_final_only": ("rp2.balance", "                    and final_balances[from_account] < ZERO\n                    and not configuration.allow_negative_balances\n                ):\n                    raise RP2ValueError(\n                        f'{out_transaction.asset}", "                    and final_balances[from_account] < ZERO\n                    and not configuration.allow_negative_balances and transaction is transactions[-1]\n                ):\n                    raise RP2ValueError(\n                        f'{out_transaction.asset}", ["C08"]),
+    "c08_sheet_order": ("rp2.balance", "        transactions = sorted(\n            transactions,\n            key=_transaction_time_sort_key,\n        )", "        transactions = sorted(transactions, key=lambda x: x.row)", ["C08"]),
+    "c08_ignore_n": ("rp2.balance", "                    and final_balances[from_account] < ZERO\n                    and not configuration.allow_negative_balances\n                ):\n                    raise RP2ValueError(\n                        f'{intra_transaction.asset}", "                    and final_balances[from_account] < ZERO\n                ):\n                    raise RP2ValueError(\n                        f'{intra_transaction.asset}", ["C08"]),
+    "c08_tolerance_1e-8": ("rp2.balance", 'Decimal("1." + "0" * 10)', 'Decimal("1." + "0" * 8)', ["C08"]),
 }
 
 
